@@ -475,6 +475,36 @@ async fn run_case(addr: SocketAddr, certs: &Certs, t: &[&str]) -> anyhow::Result
             }
             Ok(format!("{verdict} probe=ok"))
         }
+        "ghost" => {
+            // a subscriber whose machine vanishes without a word (its datagrams stop; it never closed anything, and it would
+            // itself have waited for ever). The server was started with `--max-idle-timeout <ms>`: after that long it gives the
+            // silent peer up, the topic evicts it, and the other subscriber - held up until then - gets everything.
+            let ms: u32 = t[2].parse()?;
+            let saddr = start_server_idle(certs, ms)?;
+            let (relay, cut) = udp_relay(saddr).await?;
+            let (ns, tp) = fresh();
+            let ghost = raw_connect_patient(relay, &certs.client("ca.der"), (&certs.client("localhost.der"), &certs.client("localhost.key.der"))).await?;
+            let mut gs = raw_stream(&ghost).await?;
+            gs.send(reg_frame("RS", &ns, &tp)).await?;
+            let a = answer(&mut gs).await;
+            let healthy = crate::e2e::client(saddr, certs, BackoffStrategy::constant().with_max_attempts(0)).await?;
+            let mut sub = healthy.subscriber(&format!("/{ns}/{tp}")).with_decoder(StringCodec).open().await?;
+            tokio::time::sleep(Duration::from_millis(80)).await;
+            cut.abort();
+            let other = crate::e2e::client(saddr, certs, BackoffStrategy::constant().with_max_attempts(0)).await?;
+            let mut publ = other.publisher(&format!("/{ns}/{tp}")).with_encoder(StringCodec).open().await?;
+            let total = 48usize;
+            let sender = tokio::spawn(async move { let chunk = "y".repeat(64 * 1024); for _ in 0..total { if publ.send(chunk.clone()).await.is_err() { break; } } let _ = publ.finish().await; });
+            let t0 = std::time::Instant::now();
+            let mut got = 0usize;
+            let limit = Duration::from_millis(ms as u64) + Duration::from_secs(12);
+            while got < total {
+                match tokio::time::timeout(limit.saturating_sub(t0.elapsed()), sub.next()).await { Ok(Some(Ok(_))) => got += 1, _ => break }
+            }
+            sender.abort();
+            std::mem::forget(gs); std::mem::forget(ghost);
+            Ok(format!("{a} probe={}", if got == total { "ok".to_string() } else { format!("FAILED:{got}_of_{total}_messages_{}s_after_a_subscriber_vanished", t0.elapsed().as_secs()) }))
+        }
         "lazy" => {
             // one `Client` (one connection) holds <n> subscribers of topic A that it does not read, and a subscriber of topic B that
             // it does read. A is flooded until its publisher is stuck. What is published on B still arrives.
@@ -638,6 +668,7 @@ pub fn run_named(cfg: &Cfg, name: &str) {
         cases.push("reg pipeline RP".into());
         cases.push("reg pipeline RQ".into());
         cases.push("reg lazy 9".into());
+        cases.push("reg ghost 1500".into());
         cases.push("reg stall 130".into());
         // the same against a server that has a single worker thread
         cases.push("reg stall1 130".into());
@@ -663,7 +694,7 @@ pub fn run_named(cfg: &Cfg, name: &str) {
     let mut dead = false;
     // the messaging pattern each (valid) topic name was first registered with, in this run
     let mut pattern: std::collections::HashMap<String, bool> = std::collections::HashMap::new();
-    if name == "regbig" { cases.retain(|c| c.starts_with("reg big") || c.starts_with("reg pipeline") || c.starts_with("reg abuse")); }
+    if name == "regbig" { cases.retain(|c| c.starts_with("reg big") || c.starts_with("reg pipeline") || c.starts_with("reg abuse") || c.starts_with("reg ghost")); }
     for c in &cases {
         let t: Vec<&str> = c.split(' ').collect();
         if dead {
@@ -683,7 +714,7 @@ pub fn run_named(cfg: &Cfg, name: &str) {
                 let probe_ok = line.split(' ').filter(|x| x.contains('=') && ["probe", "queued-peer", "blocked-publisher", "other-names", "queued-peer-later", "same-client"].contains(&x.split('=').next().unwrap())).all(|x| x.ends_with("=ok"));
                 // whom a dead probe speaks for: a topic left unusable (C11); for the stall scenario other topics (C17); a replier
                 // slot that a dead registration keeps occupied (C10)
-                let tag = if t[1] == "stall" || t[1] == "stall1" || t[1] == "mute" || t[1] == "lazy" { "C11/C17" } else if t[1] == "abandon" && t[2] == "RR" { "C10/C11" } else { "C11" };
+                let tag = if t[1] == "stall" || t[1] == "stall1" || t[1] == "mute" || t[1] == "lazy" { "C11/C17" } else if t[1] == "ghost" { "C08/C11" } else if t[1] == "abandon" && t[2] == "RR" { "C10/C11" } else { "C11" };
                 if !probe_ok { dead = line.contains("hang"); m = Err(format!("{tag}: after `{}` well-behaved clients are no longer served: {line}", t[1..].join(" ").chars().take(80).collect::<String>())); }
                 if m.is_ok() {
                     let answers: Vec<&str> = line.split(' ').filter(|x| !x.starts_with("probe=") && !x.starts_with("queued-peer=") && !x.starts_with("blocked-publisher=") && !x.starts_with("other-names=") && !x.starts_with("queued-peer-later=") && !x.starts_with("same-client=") && !x.starts_with("before=") && !x.starts_with("a=") && !x.starts_with("b=") && !x.starts_with("got=") && !x.starts_with("lib=")).collect();
